@@ -159,12 +159,11 @@ HNAME = dict(mul="HMul", quo="HQuo", rem="HRem", shl="HShl", shr="HShr", ushr="H
 def helpers(ctx):
     r = ctx.rng("helpers")
     quick = ctx.quick
-    full = grid64(r, 10 if quick else 400)
+    full = grid64(r, 10 if quick else 150)
     if quick:
         full = [v for i, v in enumerate(full) if i % 2 == 0 or abs(v) < 4 or abs(v) >= 2 ** 62]
-    sub = grid64(r, 3 if quick else 40, small=quick)       # rows evaluated by the Coq model
-    if quick:
-        sub = sub[::3]
+    sub = grid64(r, 3 if quick else 12, small=quick)       # rows evaluated by the Coq model
+    sub = sub[::3] if quick else sub[::2]
     jobs = []
     for sg in (True, False):
         fx = [split64(sg, v) for v in full]
@@ -333,9 +332,10 @@ def kind_program(ctx, k):
             rest = [v for v in gridA if v not in must]
             gridA = sorted(set(must + r.sample(rest, cap - len(must))))
     gridB = sorted(set(bnd))
-    if quick and len(gridB) > 18:
-        gridB = r.sample(gridB, 18)
-    gridB = gridB + rnd[:4 if quick else 30]
+    capB = 18 if quick else 34
+    if len(gridB) > capB:
+        gridB = r.sample(gridB, capB)
+    gridB = gridB + rnd[:4 if quick else 8]
     for must in (0, 1, X.kmin(k), X.kmax(k), -1 if k in X.SIGNED else 2):
         if must not in gridB:
             gridB.append(must)
@@ -445,7 +445,7 @@ def programs(ctx):
         for si, (exprs, grid, prefix, leaf) in enumerate(pr["sections"]):
             rows = pr["coq_rows"][si]
             # Coq evaluates a sample of rows (x values) per expression: the boundary rows plus random ones
-            budget = (4 if si == 0 else 2) if quick else (64 if si == 0 else 24)
+            budget = (2 if si == 0 else 2) if quick else (40 if si == 0 else 10)
             byexpr = {}
             for row in rows:
                 byexpr.setdefault(row[0], []).append(row)
